@@ -43,6 +43,7 @@ pub fn alpha(tier: &str) -> Alpha {
 }
 
 pub struct EngA {
+    pub utag: &'static str, // which universe ("main", "numeric", "limit"): recorded in replay cases
     pub tier: String,
     pub al: Alpha,
     pub u: Universe,
@@ -142,7 +143,7 @@ impl EngA {
         vs.extend(critical_points(&bvs));
         vs.push(ver(al.grid_k + 3, 0, 0, ""));
         let u = Universe::new(vs);
-        EngA { tier: tier.to_string(), al, u, all_partials, nobuild_partials, reduced, core, alts }
+        EngA { utag: "main", tier: tier.to_string(), al, u, all_partials, nobuild_partials, reduced, core, alts }
     }
 
     pub fn ref_bits(&self, sets: &[Vec<Comparator>]) -> Bits {
@@ -160,7 +161,7 @@ impl EngA {
 // ---------------------------------------------------------- (de)serialise ---
 
 fn intern(s: &str) -> &'static str {
-    for k in ["foo", "~1.y", "1.2.3.4", "1.2beta4", ">=", " ", "  ", "\t", "X", "*", "x", "||", " ||", "|| ", "  ||  ", " || "] {
+    for k in ["foo", "~1.y", "1.2.3.4", "1.2beta4", "x|y", "|", ">=", " ", "  ", "\t", "X", "*", "x", "||", " ||", "|| ", "  ||  ", " || "] {
         if k == s {
             return k;
         }
@@ -287,7 +288,7 @@ impl EngA {
     }
 
     fn case(&self, prog: &Prog, devs: &[Dev]) -> Value {
-        json!({"engine":"A","kind":"prog","prog":prog_json(prog),"devs":devs.iter().map(dev_json).collect::<Vec<_>>(),"tier":self.tier})
+        json!({"engine":"A","kind":"prog","universe":self.utag,"prog":prog_json(prog),"devs":devs.iter().map(dev_json).collect::<Vec<_>>(),"tier":self.tier})
     }
 
     /// C01 oracle for one (program, deviation set). Returns the evaluation for reuse.
@@ -573,6 +574,7 @@ pub fn limit_engine(e: &EngA) -> (EngA, Vec<Prog>) {
     // C01 quantifies over versions with components in [0, MAX_SAFE_INTEGER]
     vs.retain(|v| v.major <= MAX_SAFE && v.minor <= MAX_SAFE && v.patch <= MAX_SAFE);
     let lim = EngA {
+        utag: "limit",
         tier: e.tier.clone(),
         al: alpha(&e.tier),
         u: Universe::new(vs),
@@ -604,6 +606,7 @@ pub fn numeric_engine(e: &EngA) -> (EngA, Vec<Prog>, Vec<Prog>) {
         }
     }
     let mut pairs: Vec<Prog> = vec![];
+    let _ = &mut pairs;
     let full: Vec<&Partial> = ps.iter().filter(|p| p.c.len() >= 2 && p.c.iter().all(|c| !matches!(c, Cmp::X)) && p.pre.is_empty()).collect();
     let ops = [Op::Lt, Op::Le, Op::Gt, Op::Ge, Op::Tilde, Op::Caret, Op::Bare];
     let stride = if e.al.thorough { 1 } else { 3 };
@@ -619,6 +622,29 @@ pub fn numeric_engine(e: &EngA) -> (EngA, Vec<Prog>, Vec<Prog>) {
             }
         }
     }
+    // bit-boundary family for the prerelease gate and the bounds: base triple 1.2.3 against the same
+    // triple with 2^k added to one component (a packed / truncated triple comparison collides at some k)
+    let mut bitvs: Vec<Version> = vec![];
+    let fullp = |a: u64, b: u64, c: u64, pre: &str| Partial { c: vec![Cmp::N(a), Cmp::N(b), Cmp::N(c)], pre: pre.into(), build: String::new() };
+    singles.push(prog_single(Op::Ge, &fullp(1, 2, 3, "a")));
+    singles.push(prog_single(Op::Gt, &fullp(1, 2, 3, "a")));
+    singles.push(prog_single(Op::Caret, &fullp(1, 2, 3, "a")));
+    for k in 1..=49u32 {
+        let d = 1u64 << k;
+        for pos in 0..3 {
+            let mut t = [1u64, 2, 3];
+            t[pos] += d;
+            if t[pos] > MAX_SAFE {
+                continue;
+            }
+            for tag in ["", "0", "b"] {
+                bitvs.push(ver(t[0], t[1], t[2], tag));
+            }
+            singles.push(prog_single(Op::Le, &fullp(t[0], t[1], t[2], "b")));
+            singles.push(prog_single(Op::Lt, &fullp(t[0], t[1], t[2], "b")));
+            singles.push(vec![Alt::Set(vec![Simple::P(Op::Ge, fullp(1, 2, 3, "a")), Simple::P(Op::Le, fullp(t[0], t[1], t[2], "b"))])]);
+        }
+    }
     let mut bvs = vec![];
     for p in &singles {
         if let Some(s) = desugar(p) {
@@ -626,6 +652,11 @@ pub fn numeric_engine(e: &EngA) -> (EngA, Vec<Prog>, Vec<Prog>) {
         }
     }
     let mut vs = critical_points(&bvs);
+    vs.extend(bitvs);
+    for tag in ["", "0", "a", "b", "c"] {
+        vs.push(ver(1, 2, 3, tag));
+    }
+    vs.retain(|v| v.major <= MAX_SAFE && v.minor <= MAX_SAFE && v.patch <= MAX_SAFE);
     let ns = [0u64, 1, 2, 8, 9, 10, 11, 12];
     for a in ns {
         for b in ns {
@@ -637,6 +668,7 @@ pub fn numeric_engine(e: &EngA) -> (EngA, Vec<Prog>, Vec<Prog>) {
         }
     }
     let num = EngA {
+        utag: "numeric",
         tier: e.tier.clone(),
         al: alpha(&e.tier),
         u: Universe::new(vs),
@@ -748,15 +780,14 @@ pub fn replay(prop: &str, case: &Value, sink: &Sink) {
         ("C01", "prog") => {
             let prog = prog_from(&case["prog"]);
             let devs: Vec<Dev> = case["devs"].as_array().map(|a| a.iter().map(dev_from).collect()).unwrap_or_default();
-            e.check_c01(&prog, &devs, sink, &c, None);
-            // programs of the numeric family are evaluated on their own universe
-            let multi_digit = prog.iter().any(|a| match a {
-                Alt::Hyphen(x, y) => [x, y].iter().any(|p| p.c.iter().any(|c| matches!(c, Cmp::N(n) if *n >= 9))),
-                Alt::Set(ss) => ss.iter().any(|s| matches!(s, Simple::P(_, p) if p.c.iter().any(|c| matches!(c, Cmp::N(n) if *n >= 9)))),
-            });
-            if multi_digit {
-                let (num, _, _) = numeric_engine(&e);
-                num.check_c01(&prog, &devs, sink, &c, None);
+            match case["universe"].as_str().unwrap_or("main") {
+                "numeric" => {
+                    let (num, _, _) = numeric_engine(&e);
+                    num.check_c01(&prog, &devs, sink, &c, None);
+                }
+                _ => {
+                    e.check_c01(&prog, &devs, sink, &c, None);
+                }
             }
         }
         ("C01", "limit") => {
@@ -857,6 +888,8 @@ pub fn run_c02(tier: &str, sink: &Sink) -> (EngA, AOut) {
         let prog = prog_single(*op, p);
         texts.push(format!("foo {}", render(&prog, &[])));
         texts.push(format!("{} 1.2.3.4", render(&prog, &[])));
+        texts.push(format!("{} x|y", render(&prog, &[])));
+        texts.push(format!("| {}", render(&prog, &[])));
         for d in sites(&prog) {
             if matches!(d, Dev::VPrefix { .. } | Dev::OpGap { .. } | Dev::LeadZero { .. } | Dev::NoTagHyphen { .. }) {
                 texts.push(render(&prog, &[d]));
